@@ -109,4 +109,52 @@ PROPS = {
         "assumptions": ["task references not None; distinct components in product.component_list"],
         "explanation": "component state rule",
     },
+
+    "C03": {
+        "inv": ["BaseWorker.check_update_state_from_absence_time_list", "BaseFacility.check_update_state_from_absence_time_list",
+                "BaseTeam.check_update_state_from_absence_time_list", "BaseWorkplace.check_update_state_from_absence_time_list",
+                "BaseOrganization.check_update_state_from_absence_time_list",
+                "BaseWorkflow.__check_working", "BaseWorkflow.__check_finished", "BaseTask.can_add_resources",
+                "BaseWorker.record_assigned_task_id", "BaseFacility.record_assigned_task_id",
+                "BaseTask.record_allocated_workers_facilities_id"],
+        "static": COMMON_STATIC,
+        "level_text": "Function-level contracts, all inputs, arbitrary set order: release on finish (every resource a finishing task "
+                      "held gets an empty assignment list and state FREE; nothing else is touched; exclusive two-way consistency is "
+                      "preserved), resource state = ABSENCE/FREE/WORKING from absence list and assignment, READY->WORKING sets the "
+                      "resources WORKING, a facility is only accepted while unassigned.",
+        "level_note": "The allocation loop BaseProject.__allocate (which must preserve exclusivity) and the step invariant over simulate "
+                      "are not yet under contract; until then the invariant `holds_exclusively` is a precondition, not a theorem.",
+        "design_ref": "DESIGN.md section 6 C03",
+        "assumptions": ["not yet discharged: BaseProject.__allocate preserves exclusive two-way consistency; step composition"],
+        "explanation": "release, state-from-assignment, READY->WORKING resource states",
+    },
+    "C04": {
+        "inv": ["BaseTask.can_add_resources", "BaseProject.__is_allocated_worker", "BaseProject.__is_allocated_facility",
+                "BaseWorker.has_workamount_skill", "BaseFacility.has_workamount_skill", "BaseWorker.has_facility_skill"],
+        "static": COMMON_STATIC,
+        "level_text": "can_add_resources is proved equal to the eligibility predicate (state, solo rules both ways, fixed-ID lists, "
+                      "unassigned facility, facility/worker/operator skills > tol) for all tasks/workers/facilities, and each clause of "
+                      "the property is a proved consequence; the team/workplace membership tests are proved to mean `the resource's "
+                      "team/workplace targets the task` under unique IDs.",
+        "level_note": "That __allocate only appends resources that passed these tests (and FREE ones) is not yet under contract.",
+        "design_ref": "DESIGN.md section 6 C04",
+        "assumptions": ["WF.ids: unique team/workplace IDs, every worker's team_id names a team of the organization",
+                        "not yet discharged: the allocation loop only appends resources accepted by these predicates"],
+        "explanation": "eligibility predicates",
+    },
+    "C11": {
+        "inv": ["sort_task_list", "sort_worker_list", "sort_facility_list", "sort_workplace_list",
+                "BaseWorkplace.get_available_space_size"],
+        "static": COMMON_STATIC,
+        "level_text": "Each of the four sorting functions is proved, for every rule value and all lists (ties, missing map entries, "
+                      "equal-but-not-identical ID strings: `is` is modelled as weaker than ==), to return a permutation of its input "
+                      "ordered by the documented key of the rule (keys written from the documentation: slack, EST, SPT/LPT, FIFO = "
+                      "number of READY log entries, LRPT/SRPT, LWRPT/SWRPT; MW/SSP/VC/HSV with tie-break tuples; FSS, SSP).",
+        "level_note": "sorted() is axiomatised (stable, permutation, ordered by key); `permutation` is decided structurally (result is "
+                      "an if-tree over sorted(input) / input). Clause (b) no-inversion in __allocate is not yet under contract.",
+        "design_ref": "DESIGN.md section 6 C11",
+        "assumptions": ["float('inf') is an uninterpreted real constant; sum(dict.values()) is an uninterpreted function of the dict",
+                        "not yet discharged: C11(b) no priority inversion inside __allocate; call-site obligations of __allocate (HSV for facilities)"],
+        "explanation": "sort functions against documented keys",
+    },
 }
